@@ -89,6 +89,7 @@ fn pump(nodes: &[Node], seen: &mut Seen, drop_msg: &dyn Fn(usize, usize, &Messag
 	while seen.events.len() < nodes.len() {
 		seen.events.push(Vec::new());
 	}
+	let mut idle = 0;
 	for _round in 0..200 {
 		let mut progressed = false;
 		for i in 0..nodes.len() {
@@ -154,7 +155,9 @@ fn pump(nodes: &[Node], seen: &mut Seen, drop_msg: &dyn Fn(usize, usize, &Messag
 			seen.events[i].extend(evs);
 			nodes[i].chain_monitor.added_monitors.lock().unwrap().clear();
 		}
-		if !progressed {
+		// a failure queued by process_pending_htlc_forwards is only sent by the next call
+		idle = if progressed { 0 } else { idle + 1 };
+		if idle >= 3 {
 			break;
 		}
 	}
